@@ -1,10 +1,9 @@
 ---------------------------- MODULE VBase ----------------------------
 (* Shared helpers of the vibrato specification.  Pure operators only. *)
-EXTENDS Integers, Sequences, FiniteSets, TLC
+EXTENDS Integers, Sequences, FiniteSets, TLC, VUnkRule
 
 INF == 1000000000
 
-Min2(a, b) == IF a < b THEN a ELSE b
 Max2(a, b) == IF a > b THEN a ELSE b
 SetMin(S) == CHOOSE x \in S : \A y \in S : x <= y
 SetMax(S) == CHOOSE x \in S : \A y \in S : x >= y
